@@ -1349,6 +1349,12 @@ class ChunkedEncoder:
         """
         if self.transport is None:
             raise ExcessWrite()
+        if data:
+            # A zero-length chunk is the end-of-body marker, so an empty write
+            # must not be encoded as a chunk.
+            self._writeChunk(data)
+
+    def _writeChunk(self, data):
         self.transport.writeSequence(
             (networkString("%x\r\n" % len(data)), data, b"\r\n")
         )
@@ -1357,7 +1363,9 @@ class ChunkedEncoder:
         """
         Indicate that the request body is complete and finish the request.
         """
-        self.write(b"")
+        if self.transport is None:
+            raise ExcessWrite()
+        self._writeChunk(b"")
         self.transport.unregisterProducer()
         self._allowNoMoreWrites()
 
